@@ -16,7 +16,7 @@ import subprocess
 import sys
 import tempfile
 
-OPS = ["M", "A", "B", "E", "N", "J", "P", "I", "S"]
+OPS = ["M", "A", "B", "E", "N", "J", "P", "I", "S", "T", "G", "D"]
 OP_DOC = {
     "M": "create unrelated Mesh / FunctionSpace / Coefficient / Constant / Index objects",
     "A": "generate C code for an unrelated form (float64)",
@@ -26,9 +26,14 @@ OP_DOC = {
     "J": "run a complete JIT request (cffi build) for an unrelated form",
     "P": "change numpy print options",
     "I": "generate code for a form on a macro (P1-iso-P2) element of the same cell/degree as a target",
+    "T": "generate code for three of the targets themselves under other options (loose table tolerances 1e-3, float32): whatever a compilation caches under a key that "
+         "ignores options is then met by the target's own default-option compilation",
+    "G": "generate code for forms that use NAMED quadrature schemes (Gauss-Jacobi on simplices, GLL on intervals/quadrilaterals/hexahedra) of the degrees the targets' default rules have",
+    "D": "generate code for two bilinear forms with part='diagonal' in one request (and a vector-valued one)",
     "S": "generate code for a simplex form with the process-wide options dict that has sum_factorization=True (as ffcx.main does for several files)",
 }
-TARGETS = ["mass-P1-tri", "nonaffine-quad", "mixed-TH", "interior-facet", "expression", "vector-const-tet", "two-rules-coeff", "prism-ds", "iso-mass-tri", "sumfact-hex"]
+TARGETS = ["mass-P1-tri", "nonaffine-quad", "mixed-TH", "interior-facet", "expression", "vector-const-tet", "two-rules-coeff", "prism-ds", "iso-mass-tri", "sumfact-hex",
+           "mass-Q2-hex", "two-mesh-expression"]
 _SHARED = {}
 
 
@@ -91,6 +96,22 @@ def do_op(op, k, scratch):
         ffcx.compiler.compile_ufl_objects([ufl.TrialFunction(Vi) * ufl.TestFunction(Vi) * ufl.dx], options=ffcx.options.get_options({}), namespace="hI")
     elif op == "S":
         ffcx.compiler.compile_ufl_objects([f * u * v * ufl.dx], options=shared_options(), namespace="hS")
+    elif op == "G":
+        import basix.ufl
+
+        for cell, d, scheme in (("triangle", 2, "Gauss-Jacobi"), ("tetrahedron", 3, "Gauss-Jacobi"), ("quadrilateral", 2, "GLL"), ("hexahedron", 3, "GLL"), ("interval", 1, "GLL")):
+            mg = ufl.Mesh(basix.ufl.element("P", cell, 1, shape=(d if cell != "interval" else 2,) if cell in ("tetrahedron", "hexahedron") else (2,)))
+            Vg = ufl.FunctionSpace(mg, basix.ufl.element("P", cell, 1))
+            ug, vg = ufl.TrialFunction(Vg), ufl.TestFunction(Vg)
+            terms = [ug * vg * ufl.dx(metadata={"quadrature_rule": scheme, "quadrature_degree": q}) for q in (1, 2, 3, 4, 5, 6)]
+            if cell != "interval":
+                terms += [ug * vg * ufl.ds(metadata={"quadrature_rule": "GLL" if cell in ("triangle", "quadrilateral", "hexahedron") else "Gauss-Jacobi", "quadrature_degree": q}) for q in (2, 3, 4, 6)]
+            ffcx.compiler.compile_ufl_objects([sum(terms[1:], terms[0])], options=ffcx.options.get_options({}), namespace="hG")
+    elif op == "D":
+        ffcx.compiler.compile_ufl_objects([f * u * v * ufl.dx, ufl.inner(ufl.grad(u), ufl.grad(v)) * ufl.dx + u * v * ufl.ds], options=ffcx.options.get_options({"part": "diagonal"}), namespace="hD")
+    elif op == "T":
+        for name in ("mass-Q2-hex", "nonaffine-quad", "expression"):
+            ffcx.compiler.compile_ufl_objects([build_target(name)], options=ffcx.options.get_options({"table_atol": 1e-3, "table_rtol": 1e-3, "scalar_type": "float32"}), namespace="hT")
     else:
         raise KeyError(op)
 
@@ -152,6 +173,17 @@ def build_target(name):
         V = ufl.FunctionSpace(m, _f.tp_element("hexahedron", 2))
         u, v = ufl.TrialFunction(V), ufl.TestFunction(V)
         return ufl.inner(ufl.grad(u), ufl.grad(v)) * ufl.dx
+    if name == "mass-Q2-hex":
+        # tensor-product basis values: many table entries lie between the default clamping tolerance and 1e-3
+        m = ufl.Mesh(el("P", "hexahedron", 1, shape=(3,)))
+        V = ufl.FunctionSpace(m, el("P", "hexahedron", 2))
+        return ufl.TrialFunction(V) * ufl.TestFunction(V) * ufl.dx
+    if name == "two-mesh-expression":
+        # quantities of a parent mesh and of its facet mesh in one expression (two domains to number in the signature)
+        m = ufl.Mesh(el("P", "triangle", 1, shape=(2,)))
+        fm = ufl.Mesh(el("P", "interval", 1, shape=(2,)))
+        c = ufl.Coefficient(ufl.FunctionSpace(fm, el("P", "interval", 1)))
+        return (c * ufl.FacetNormal(m), np.array([[0.3], [0.5], [0.8]]))
     if name == "prism-ds":
         m = ufl.Mesh(el("P", "prism", 1, shape=(3,)))
         V = ufl.FunctionSpace(m, el("P", "prism", 1))
